@@ -344,7 +344,10 @@ class Exec(Interp):
         if len(keep) == len(ev.variants):
             return
         new = Enum(ev.path, keep, {k: w for k, w in ev.when.items() if k in keep})
-        self.write(S, cell, path, new, ("prune",))
+        if not any(pe[0] in ("idx", "ci", "elem") for pe in path):
+            # (an element of a summarised sequence is not narrowed in place: the summary stands for all elements;
+            # what is known about this one element lives in the symbols of the value that was read)
+            self.write(S, cell, path, new, ("prune",))
         if len(keep) == 1:
             (n,) = keep
             w = ev.when.get(n)
@@ -927,18 +930,33 @@ class Exec(Interp):
                         body_ = self.loop_body(inst, bi)
                         ent = [edges[(p_, bi)] for p_ in srcs if (p_, bi) in edges and p_ not in body_ and not edges[(p_, bi)].dead]
                         bks = [edges[(p_, bi)] for p_ in srcs if (p_, bi) in edges and p_ in body_ and not edges[(p_, bi)].dead]
-                        for c_, v_ in old.cells.items():
-                            if not isinstance(v_, Seq) or not ent:
-                                continue
-                            if not all(isinstance(B_.cells.get(c_), Seq) and B_.cells[c_].len == v_.len and B_.cells[c_].elem is v_.elem for B_ in bks):
-                                continue
-                            evs = [E_.cells.get(c_) for E_ in ent]
-                            if not all(isinstance(e_, Seq) and e_.len == v_.len and e_.elem is v_.elem for e_ in evs):
-                                continue
-                            ef = [t_ for t_ in evs[0].efacts if all(t_ in e_.efacts for e_ in evs[1:])]
-                            new_ = tuple(t_ for t_ in ef if t_ not in v_.efacts)
-                            if new_:
-                                Jn.cells[c_] = Seq(v_.kind, v_.len, v_.elem, v_.efacts + new_, v_.data, v_.prov)
+                        def carry(v_, bvs, evs, depth=0):
+                            """v_ with the element facts that all entry edges have and no back edge contradicts
+                            (the loop leaves the sequence as it is: same length symbol, same element summary)."""
+                            if isinstance(v_, Seq):
+                                if not all(isinstance(b_, Seq) and b_.len == v_.len and b_.elem is v_.elem for b_ in bvs):
+                                    return v_
+                                if not evs or not all(isinstance(e_, Seq) and e_.len == v_.len and e_.elem is v_.elem for e_ in evs):
+                                    return v_
+                                ef = [t_ for t_ in evs[0].efacts if all(t_ in e_.efacts for e_ in evs[1:])]
+                                new_ = tuple(t_ for t_ in ef if t_ not in v_.efacts)
+                                return Seq(v_.kind, v_.len, v_.elem, v_.efacts + new_, v_.data, v_.prov) if new_ else v_
+                            if depth > 4:
+                                return v_
+                            if isinstance(v_, Struct):
+                                if not all(isinstance(x, Struct) and len(x.fields) == len(v_.fields) for x in bvs + evs):
+                                    return v_
+                                fs = [carry(f_, [b_.fields[i_] for b_ in bvs], [e_.fields[i_] for e_ in evs], depth + 1) for i_, f_ in enumerate(v_.fields)]
+                                return v_ if all(a_ is b_ for a_, b_ in zip(fs, v_.fields)) else Struct(v_.path, fs)
+                            return v_
+
+                        if ent:
+                            for c_, v_ in old.cells.items():
+                                if not isinstance(v_, (Seq, Struct)):
+                                    continue
+                                nv_ = carry(v_, [B_.cells.get(c_) for B_ in bks], [E_.cells.get(c_) for E_ in ent])
+                                if nv_ is not v_:
+                                    Jn.cells[c_] = nv_
                         J = Jn
                     elif bi in heads:
                         nvis[bi] = nvis.get(bi, 0) + 1
